@@ -22,6 +22,7 @@ import (
 
 	c4eapp "github.com/chain4energy/c4e-chain/app"
 	appparams "github.com/chain4energy/c4e-chain/app/params"
+	cfedistributor "github.com/chain4energy/c4e-chain/x/cfedistributor"
 	distrkeeper "github.com/chain4energy/c4e-chain/x/cfedistributor/keeper"
 	distrtypes "github.com/chain4energy/c4e-chain/x/cfedistributor/types"
 	minterkeeper "github.com/chain4energy/c4e-chain/x/cfeminter/keeper"
@@ -209,6 +210,34 @@ func (r *appRun) restart() {
 	app, _ := newBareAppOn(r.db)
 	r.app = app
 	r.ta.App = app
+}
+
+// collectorProbe (C10), on a dropped branch of the committed state: whatever the transactions of the history did — whatever they
+// managed to create at whatever address — a distributor configured (validly) to pay all three collectors processes its block.
+func (r *appRun) collectorProbe(cctx sdk.Context, rep *Report, cid, bIdx int) {
+	app := r.app
+	pc, _ := cctx.CacheContext()
+	mod := func(id string) distrtypes.Account { return distrtypes.Account{Type: distrtypes.ModuleAccount, Id: id} }
+	params := distrtypes.Params{SubDistributors: []distrtypes.SubDistributor{{Name: "probe", Sources: []*distrtypes.Account{{Type: distrtypes.Main, Id: ""}},
+		Destinations: distrtypes.Destinations{PrimaryShare: mod(distrtypes.GreenEnergyBoosterCollector), BurnShare: sdk.ZeroDec(),
+			Shares: []*distrtypes.DestinationShare{{Name: "a", Share: sdk.NewDecWithPrec(3, 1), Destination: mod(distrtypes.GovernanceBoosterCollector)},
+				{Name: "b", Share: sdk.NewDecWithPrec(3, 1), Destination: mod(distrtypes.ValidatorsRewardsCollector)}}}}}}
+	if params.Validate() != nil || app.CfedistributorKeeper.SetParams(pc, params) != nil {
+		rep.Count("app.collector_probe.skipped")
+		return
+	}
+	panicked := ""
+	func() {
+		defer func() {
+			if rec := recover(); rec != nil {
+				panicked = fmt.Sprint(rec)
+			}
+		}()
+		fundAddr(pc, r.ta, authtypes.NewModuleAddress(distrtypes.DistributorMainAccount), sdk.NewCoins(sdk.NewInt64Coin(BondDenom, 1000000)))
+		cfedistributor.BeginBlocker(pc, app.CfedistributorKeeper)
+	}()
+	rep.Eval("C10.distributor_can_pay_every_collector", panicked == "", cid, bIdx,
+		"on the state after this block, a distributor block under a valid configuration that pays the three collector module accounts panics: "+panicked)
 }
 
 func (r *appRun) runBlock(pb plannedBlock, tracked []sdk.AccAddress, rep *Report, cid, bIdx int, record bool) (o blockObs) {
@@ -468,6 +497,9 @@ func (r *appRun) runBlock(pb plannedBlock, tracked []sdk.AccAddress, rep *Report
 	o.appHash = hex.EncodeToString(hash)
 	sb.WriteString(fmt.Sprintf("end %s;hash %s", eventsDigest(re.Events), o.appHash))
 	cctx := app.BaseApp.NewContext(true, tmproto.Header{Height: app.LastBlockHeight()})
+	if record {
+		r.collectorProbe(cctx, rep, cid, bIdx)
+	}
 	// C03, after every block (whatever its transactions did in between): the module's two registered invariants on the committed state
 	if msg, broken := distrkeeper.NonNegativeCoinStateInvariant(app.CfedistributorKeeper)(cctx); true {
 		rep.Eval("C03.nonnegative_states_after_the_block", !broken, cid, bIdx, msg)
